@@ -215,6 +215,32 @@ def run_case(spec, inputs=None):
         except Exception as e:  # noqa: BLE001
             V(f"C08/repeated-request/raised/{type(e).__name__}", f"second summary request raised {type(e).__name__}: "
               f"{str(e)[:200]}")
+        # (g) calls are retracted: the contest-level computations are repeated on the SAME model object without any
+        # list and the summary is requested again - it must equal the summary of a fresh run without lists
+        if (lhs or rhs or stop) and spec["i"] % 2 == 0:
+            try:
+                rh = client.results_handler
+                top = ["postal_code"] if not el.district else ["postal_code", "district"]
+                model.get_aggregate_predictions(rh.reporting_units, rh.nonreporting_units, rh.unexpected_units, top, "margin")
+                for a in alphas:
+                    model.get_aggregate_prediction_intervals(rh.reporting_units, rh.nonreporting_units,
+                                                             rh.unexpected_units, top, a, None, "margin")
+                retracted = {a: model.get_national_summary_estimates(copy.deepcopy(weights), base, a)["margin"] for a in alphas}
+                c0 = copy.deepcopy(c2)
+                c0.update(lhs_called_contests=[], rhs_called_contests=[], stop_model_call=[])
+                res_f, exc_f, client_f = harness.run_estimates(el, feed, c0, want_client=True)
+                if exc_f is None:
+                    fresh = {a: client_f.model.get_national_summary_estimates(copy.deepcopy(weights), base, a)["margin"]
+                             for a in alphas}
+                    out["counters"]["retraction_histories"] = out["counters"].get("retraction_histories", 0) + 1
+                    for a in alphas:
+                        if any(abs(float(x) - float(y)) > 1e-9 for x, y in zip(retracted[a], fresh[a])):
+                            V("C08/summary-depends-on-retracted-calls", f"alpha={a}: after retracting lhs={lhs} rhs={rhs} "
+                              f"stop={stop} on the same model the summary is {retracted[a]}, a fresh run without lists "
+                              f"gives {fresh[a]}")
+                            break
+            except Exception as e:  # noqa: BLE001
+                V(f"C08/retraction-history-raised/{type(e).__name__}", f"{type(e).__name__}: {str(e)[:200]}")
         # (e) wrong-size weights
         bad = {f"X{j}": 1 for j in range(n + 1)}
         try:
